@@ -21,10 +21,18 @@ def small_scope(alphabet, maxlen):
         for t in itertools.product(alphabet, repeat=n):
             yield ''.join(t)
 
+TIE_TRANSLATORS = ('domains', 'gettexthdr', 'hdrchk')
+
 def main():
     chk = common.Check('C15')
     import hdr_common as C
-    proved = chk.prove('I18n.Props.C15', generated=('hdr', 'date', 'charset'))
+    proved = chk.prove('I18n.Props.C15', generated=('hdr', 'date', 'charset') + TIE_TRANSLATORS, extra_targets=())
+    # the tie by translation: lib/domains.py, gettext.parse_header and the header checks regenerated from the current source and proved equal
+    # to the model (Props/C15Tie.lean)
+    tie_ok = common.prove_tie(chk, 'I18n.Props.C15Tie', TIE_TRANSLATORS,
+                              'the definitions regenerated from the current lib/domains.py, lib/gettext.py (parse_header) and lib/check/__init__.py '
+                              '(check_project, check_translator, check_comments, check_mime, check_headers) are no longer proved equal to Model/Domains.lean / Model/Hdr.lean '
+                              '(generated_*_eq_model and their corollaries)')
     problems = ' '.join(chk.lean.problems)
     driver_ok = os.path.exists(common.driver_path()) and not any('untranslatable' in s for s in chk.lean.translation.values()) \
         and 'Driver' not in problems and 'I18n.Model' not in problems and 'I18n.Spec' not in problems and 'I18n.Generated' not in problems
@@ -56,6 +64,7 @@ def main():
             + ['A: b', 'A:b\n', 'A : b', ':', ': x', 'a:b:c', 'a\n\nb: c\n\n', '\n', '\n\n', 'a: \t b \t\n', 'a:\u00a0b\u00a0', 'a: b\r\n', 'a\r: b', 'a:\x0cb\x0c',
                '~:x', ' :x', '\x7f:x', ';:x', '9:x', 'A:', 'A:\t', 'A: ', 'a\x00:b']
         _, outs = stream('hdr-parse', 'parse', parse_in, C.impl_parse)
+        chk.stream('hdr-parse-generated', [f'hdr gparse {C.hexs(x)}' for x in parse_in], outs)
         chk.note_cases(set(outs))
         brk = ['\n', '\r', '\r\n', '\n\r', '\x0b', '\x0c', '\x1c', '\x1d', '\x1e', '\x85', '\u2028', '\u2029', '\x1f', '\x84', '\u2027', '\t', ' ']
         sl_in = [c['comments'] for c in cases[:4000]] + [''.join(t) for n in range(4) for t in itertools.product(['a', '\n', '\r', '\x85', '\u2028'], repeat=n)] \
@@ -73,6 +82,10 @@ def main():
         lines = [f'hdr email {C.hexs(a)} {C.htable((k, C.hexs(v)) for k, v in C.lower_table([a]).items())}' for a in addrs]
         outs = [C.impl_email(a) for a in addrs]
         chk.stream('hdr-email-domain', lines, outs)
+        chk.stream('hdr-email-domain-generated', [l.replace('hdr email ', 'hdr gemail ', 1) for l in lines],
+                   [('ok ' + ' '.join(o.split(' ')[2:])) if o.startswith('ok ') else o for o in outs])
+        noat = ['', 'nobody', 'a.b', 'example.com', 'x\n']
+        chk.stream('hdr-email-domain-generated-noat', [f'hdr gemail {C.hexs(a)} _' for a in noat], [C.impl_email(a) for a in noat])
         cts = sorted({v for c in cases for k, v in C.fields_of_case(c['entries']) if k == 'Content-Type'})
         ct_toks = ['text/plain; ', 'charset=', 'UTF-8', ';', ' ', 'x', '-', '_', 'é', '\u00a0', 'text/plain;', 'charset']
         cts += [''.join(t) for n in range(1, 5 if big else 4) for t in itertools.product(ct_toks, repeat=n)]
@@ -85,12 +98,14 @@ def main():
         lines = [f'hdr comments {t} {C.hexs(s)}' for t, s in com_in]
         outs = [C.impl_comments(t, s) for t, s in com_in]
         chk.stream('check-comments', lines, outs)
+        chk.stream('check-comments-generated', [l.replace('hdr comments ', 'hdr gcomments ', 1) for l in lines], outs)
         sub = cases if big else cases[:n_fixed] + cases[n_fixed:n_fixed + 1500]
         lines, outs = [], []
         for c in sub:
             t = c['kind'] == 'pot'
             lines.append(C.headers_line(t, c['entries'])); outs.append(C.impl_headers(t, c['entries']))
         chk.stream('check-headers', lines, outs)
+        chk.stream('check-headers-generated', [l.replace('hdr headers ', 'hdr gheaders ', 1) for l in lines], outs)
         lines, outs, l2, o2, l3, o3 = [], [], [], [], [], []
         for c in sub:
             t = c['kind'] == 'pot'
@@ -99,8 +114,11 @@ def main():
             l2.append(C.project_line(fl)); o2.append(C.impl_project(fl))
             l3.append(C.translator_line(t, fl)); o3.append(C.impl_translator(t, fl))
         chk.stream('check-mime', lines, outs)
+        chk.stream('check-mime-generated', [l.replace('hdr mime ', 'hdr gmime ', 1) for l in lines], outs)
         chk.stream('check-project', l2, o2)
         chk.stream('check-translator', l3, o3)
+        chk.stream('check-project-generated', [l.replace('hdr project ', 'hdr gproject ', 1) for l in l2], o2)
+        chk.stream('check-translator-generated', [l.replace('hdr translator ', 'hdr gtranslator ', 1) for l in l3], o3)
         # --- the header stages composed
         lines = [C.all_line(c) for c in cases]
         outs = [C.impl_all(c) for c in cases]
@@ -174,6 +192,7 @@ def main():
              'doubled and quadrupled fields; small-scope enumerations for parse_header (length <= 4/5 over 8 characters), the domain regex and the Content-Type regex '
              '(token strings); non-trivial = distinct canonical outcome',
         trusted=['Lean 4.33 kernel', 'axioms: propext, Classical.choice, Quot.sound only',
+                 'tools/translate/domains2lean.py, gettexthdr2lean.py, hdrchk2lean.py over chktr.py + pytr (the translated subset and the Python-operation kit Model/HdrPy.lean, PyKit.lean: see DESIGN-notes/hdr.md)',
                  'tools/translate/hdr2lean.py (header-field registry, decorator registry, special-use domain alternatives enumerated from the sre tree, compared constants, '
                  'regex texts, re classes and str.splitlines breaks of the running interpreter, names of the unusual characters, tag names per method)',
                  'library results are inputs of the model: email.utils.parseaddr, urllib.parse.urlparse(...).scheme, difflib.get_close_matches, str.lower, and the '
@@ -183,6 +202,10 @@ def main():
         explanation=EXPLANATION)
 
 EXPLANATION = (
+    'TIE BY TRANSLATION (Props/C15Tie.lean): lib/domains.py (all functions), gettext.parse_header, Checker.check_project, check_translator, check_comments and '
+    'check_mime (with the charset fragment through C20 model functions) and check_headers are regenerated from the current source on every run and proved equal, for all inputs, to the '
+    'model definitions the theorems below are about (generated_*_eq_model + the headline theorems restated about the regenerated definitions); the regenerated '
+    'definitions also run against the real code in the *-generated streams. '
     'Proved for ALL files (Props/C15.lean): header_tags_eq - whenever the header stages return, the set of (tag, extras) the imperative model '
     'of check_comments / check_headers / check_mime / check_dates / check_project / check_translator emits equals Spec.HeaderRules.Reported '
     '(Appendix A, one clause per tag), for any entries, any header text (any lines, multiplicity, order), any comments, PO / POT / MO and every '
